@@ -1,0 +1,152 @@
+//go:build verif
+
+package thriftudp
+
+// Contracts for the deductive verifier in /verif (comment-only).
+//
+// Abstract view of a TUDPTransport: buf = contents of writeBuf (a byte string),
+// closed = the closed flag. pending(p) is what the next Flush would send.
+
+//@ extern interface thrift.TTransport
+
+//@ pred pending(p *TUDPTransport) { p.writeBuf }
+//@ pred wf(p *TUDPTransport) { p != nil && p.conn != nil }
+//@ pred no_calls() { len(calls) == old(len(calls)) }
+//@ pred one_call() { len(calls) == old(len(calls)) + 1 && (forall j int :: 0 <= j && j < old(len(calls)) ==> calls[j] == old(calls[j])) }
+
+//@ func (*TUDPTransport).IsOpen
+//@   property C15
+//@   requires wf(p)
+//@   ensures @val result == !p.closed
+//@   ensures @quiet no_calls()
+
+//@ func (*TUDPTransport).Write
+//@   property C15
+//@   requires wf(p)
+//@   modifies p.writeBuf
+//@   ensures @quiet no_calls()
+//@   ensures @closed old(p.closed) ==> result1 != nil && result0 == 0 && p.writeBuf == old(p.writeBuf)
+//@   ensures @closed_flag_kept p.closed == old(p.closed)
+//@   case fits: requires !p.closed && len(p.writeBuf) + len(buf) <= 65000
+//@     ensures @appended p.writeBuf == old(p.writeBuf) + str(buf) && result0 == len(buf) && result1 == nil
+//@   case refused: requires !p.closed && len(p.writeBuf) + len(buf) > 65000
+//@     ensures @error result1 != nil && result0 == 0
+//@     ensures @refused_discards_message len(pending(p)) == 0
+
+//@ func (*TUDPTransport).WriteByte
+//@   property C15
+//@   requires wf(p)
+//@   modifies p.writeBuf
+//@   ensures @quiet no_calls()
+//@   ensures @closed old(p.closed) ==> result != nil && p.writeBuf == old(p.writeBuf)
+//@   case fits: requires !p.closed && len(p.writeBuf) + 1 <= 65000
+//@     ensures @appended len(p.writeBuf) == len(old(p.writeBuf)) + 1 && result == nil
+//@   case refused: requires !p.closed && len(p.writeBuf) + 1 > 65000
+//@     ensures @error result != nil
+//@     ensures @refused_discards_message len(pending(p)) == 0
+
+//@ func (*TUDPTransport).WriteString
+//@   property C15
+//@   requires wf(p)
+//@   modifies p.writeBuf
+//@   ensures @quiet no_calls()
+//@   ensures @closed old(p.closed) ==> result1 != nil && result0 == 0 && p.writeBuf == old(p.writeBuf)
+//@   case fits: requires !p.closed && len(p.writeBuf) + len(s) <= 65000
+//@     ensures @appended p.writeBuf == old(p.writeBuf) + s && result0 == len(s) && result1 == nil
+//@   case refused: requires !p.closed && len(p.writeBuf) + len(s) > 65000
+//@     ensures @error result1 != nil && result0 == 0
+//@     ensures @refused_discards_message len(pending(p)) == 0
+
+//@ func (*TUDPTransport).Flush
+//@   property C15
+//@   emits
+//@   requires wf(p)
+//@   modifies p.writeBuf
+//@   ensures @closed old(p.closed) ==> result != nil && no_calls() && p.writeBuf == old(p.writeBuf)
+//@   ensures @one_datagram !old(p.closed) ==> one_call() && calls[old(len(calls))] == evn("conn.Write", p.conn, old(pending(p)))
+//@   ensures @buffer_emptied !old(p.closed) ==> len(p.writeBuf) == 0
+//@   ensures @send_error_returned !old(p.closed) ==> result.tag == res1(old(len(calls))) && result.pay == res2(old(len(calls)))
+
+//@ func (*TUDPTransport).Close
+//@   property C15
+//@   emits
+//@   requires wf(p)
+//@   modifies p.closed
+//@   ensures @closed_after p.closed
+//@   ensures @idempotent old(p.closed) ==> result == nil && no_calls()
+//@   ensures @first !old(p.closed) ==> one_call() && calls[old(len(calls))] == evn("conn.Close", p.conn)
+//@   ensures @buffer_kept p.writeBuf == old(p.writeBuf)
+
+//@ func (*TUDPTransport).Read
+//@   property C15
+//@   emits
+//@   requires wf(p)
+//@   modifies elems(buf)
+//@   ensures @closed old(p.closed) ==> result1 != nil && result0 == 0 && no_calls()
+
+//@ func (*TUDPTransport).ReadByte
+//@   property C15
+//@   emits
+//@   requires wf(p) && len(p.readByteBuf) >= 1
+//@   modifies elems(p.readByteBuf)
+//@   ensures @closed old(p.closed) ==> result1 != nil && no_calls()
+
+// ---- TMultiUDPTransport: every write and flush reaches every destination, in order,
+// until a destination fails.
+
+//@ pred mwf(p *TMultiUDPTransport) { p != nil && (forall j int :: 0 <= j && j < len(p.transports) ==> p.transports[j] != nil) }
+//@ pred prefix_kept() { forall j int :: 0 <= j && j < old(len(calls)) ==> calls[j] == old(calls[j]) }
+
+//@ func (*TMultiUDPTransport).Write
+//@   property C15
+//@   emits
+//@   requires mwf(p)
+//@   ensures @prefix prefix_kept()
+//@   ensures @count_le len(calls) - old(len(calls)) <= len(p.transports) && len(calls) >= old(len(calls))
+//@   ensures @each forall j int :: 0 <= j && j < len(calls) - old(len(calls)) ==> calls[old(len(calls)) + j] == ev(thrift.TTransport.Write, p.transports[j], buff)
+//@   ensures @all_if_no_error result1 == nil ==> len(calls) == old(len(calls)) + len(p.transports)
+//@   ensures @earlier_succeeded forall j int :: 0 <= j && j < len(calls) - old(len(calls)) - 1 ==> res1(old(len(calls)) + j) == 0
+//@   ensures @error_is_childs result1 != nil ==> len(calls) > old(len(calls)) && result1.tag == res1(len(calls) - 1) && result1.pay == res2(len(calls) - 1)
+//@   loop 1 invariant @idx 0 <= rangeindex+1 && rangeindex+1 <= len(p.transports)
+//@   loop 1 invariant @count len(calls) == old(len(calls)) + rangeindex + 1
+//@   loop 1 invariant @prefix prefix_kept()
+//@   loop 1 invariant @each forall j int :: 0 <= j && j <= rangeindex ==> calls[old(len(calls)) + j] == ev(thrift.TTransport.Write, p.transports[j], buff) && res1(old(len(calls)) + j) == 0
+
+//@ func (*TMultiUDPTransport).Flush
+//@   property C15
+//@   emits
+//@   requires mwf(p)
+//@   ensures @prefix prefix_kept()
+//@   ensures @count_le len(calls) - old(len(calls)) <= len(p.transports) && len(calls) >= old(len(calls))
+//@   ensures @each forall j int :: 0 <= j && j < len(calls) - old(len(calls)) ==> calls[old(len(calls)) + j] == ev(thrift.TTransport.Flush, p.transports[j])
+//@   ensures @all_if_no_error result == nil ==> len(calls) == old(len(calls)) + len(p.transports)
+//@   ensures @earlier_succeeded forall j int :: 0 <= j && j < len(calls) - old(len(calls)) - 1 ==> res0(old(len(calls)) + j) == 0
+//@   ensures @error_is_childs result != nil ==> len(calls) > old(len(calls)) && result.tag == res0(len(calls) - 1) && result.pay == res1(len(calls) - 1)
+//@   loop 1 invariant @idx 0 <= rangeindex+1 && rangeindex+1 <= len(p.transports)
+//@   loop 1 invariant @count len(calls) == old(len(calls)) + rangeindex + 1
+//@   loop 1 invariant @prefix prefix_kept()
+//@   loop 1 invariant @each forall j int :: 0 <= j && j <= rangeindex ==> calls[old(len(calls)) + j] == ev(thrift.TTransport.Flush, p.transports[j]) && res0(old(len(calls)) + j) == 0
+
+//@ func (*TMultiUDPTransport).Close
+//@   property C15
+//@   emits
+//@   requires mwf(p)
+//@   ensures @prefix prefix_kept()
+//@   ensures @each forall j int :: 0 <= j && j < len(calls) - old(len(calls)) ==> calls[old(len(calls)) + j] == ev(thrift.TTransport.Close, p.transports[j])
+//@   ensures @all_if_no_error result == nil ==> len(calls) == old(len(calls)) + len(p.transports)
+//@   loop 1 invariant @idx 0 <= rangeindex+1 && rangeindex+1 <= len(p.transports)
+//@   loop 1 invariant @count len(calls) == old(len(calls)) + rangeindex + 1
+//@   loop 1 invariant @prefix prefix_kept()
+//@   loop 1 invariant @each forall j int :: 0 <= j && j <= rangeindex ==> calls[old(len(calls)) + j] == ev(thrift.TTransport.Close, p.transports[j]) && res0(old(len(calls)) + j) == 0
+
+//@ func (*TMultiUDPTransport).Open
+//@   property C15
+//@   emits
+//@   requires mwf(p)
+//@   ensures @prefix prefix_kept()
+//@   ensures @each forall j int :: 0 <= j && j < len(calls) - old(len(calls)) ==> calls[old(len(calls)) + j] == ev(thrift.TTransport.Open, p.transports[j])
+//@   ensures @all_if_no_error result == nil ==> len(calls) == old(len(calls)) + len(p.transports)
+//@   loop 1 invariant @idx 0 <= rangeindex+1 && rangeindex+1 <= len(p.transports)
+//@   loop 1 invariant @count len(calls) == old(len(calls)) + rangeindex + 1
+//@   loop 1 invariant @prefix prefix_kept()
+//@   loop 1 invariant @each forall j int :: 0 <= j && j <= rangeindex ==> calls[old(len(calls)) + j] == ev(thrift.TTransport.Open, p.transports[j]) && res0(old(len(calls)) + j) == 0
